@@ -50,7 +50,7 @@ def run(chk, repo, tier):
     chk.clause('C03-a', 'modulus only after coherent combination (reduce before |.|^2)', 2)
     chk.clause('C03-b', 'merge adds complex data; the complex field inserts with intensity=False', 2)
     chk.clause('C03-c', 'reduce merges every transitively overlapping group of fields (group extents kept up to date)', 4)
-    chk.clause('C03-h', 'sub-array bookkeeping: bounding slices and their offsets agree with array_extent (floor(n/2) convention)', 9)
+    chk.clause('C03-h', 'sub-array bookkeeping: bounding slices and their offsets agree with array_extent (floor(n/2) convention)', 7)
     chk.clause('C03-d', 'per segment the same slice indexes amplitude, mask and OPD and feeds the offset; index n selects mask and tilt slot', 8)
     chk.clause('C03-e', 'the slice cache is recomputed from the mask wherever the mask is assigned', 2)
     chk.clause('C03-f', 'the mask is a multiplicative factor of every segment phasor on every path', 4)
